@@ -2,18 +2,20 @@
    effect of Create/Update), and the reference it refines: one finite map per namespace plus
    a "current namespace" register.  Definitions only. *)
 From Coq Require Import List String Bool Arith NArith.
-From Helm Require Import Common.Assoc Common.Strs Storage.Spec Storage.Mem.
+From Helm Require Import Common.Assoc Common.Strs Storage.Spec Storage.Mem Storage.Rmw.
 Import ListNotations.
 Open Scope string_scope.
 
 Inductive mop :=
 | MOp (o : op)
-| MSetNs (ns : string).            (* Memory.SetNamespace; "" = all namespaces for List/Query *)
+| MSetNs (ns : string)             (* Memory.SetNamespace; "" = all namespaces for List/Query *)
+| MRmw (name : string) (ver : nat) (status : string).   (* Rmw.rmw: query, change status, update *)
 
 Definition mem_mstep (m : mem) (x : mop) : mem * out :=
   match x with
   | MOp o => mem_step m o
   | MSetNs ns => (mkMem ns (mcache m), ROk)
+  | MRmw n v st => rmw mem_step m n v st
   end.
 
 Fixpoint mem_mrun (m : mem) (xs : list mop) : list out :=
@@ -35,34 +37,40 @@ Definition ns_visible (c : nspec) : list rel :=
   let ss := if String.eqb (ncur c) "" then map snd (nstores c) else [sget (ncur c) (nstores c)] in
   map snd (List.concat ss).
 
-Definition nspec_step (c : nspec) (x : mop) : nspec * out :=
-  match x with
-  | MSetNs ns => (mkNs ns (nstores c), ROk)
-  | MOp (OCreate r) =>
+Definition nspec_op (c : nspec) (o : op) : nspec * out :=
+  match o with
+  | OCreate r =>
       (* writes switch the current namespace to the release's, even when they fail *)
       let ns := ns_of r in
       let res := spec_step (sget ns (nstores c)) (OCreate r) in
       (mkNs ns (aset ns (fst res) (nstores c)), snd res)
-  | MOp (OUpdate r) =>
+  | OUpdate r =>
       let ns := ns_of r in
       match aget ns (nstores c) with
       | Some s => let res := spec_step s (OUpdate r) in (mkNs ns (aset ns (fst res) (nstores c)), snd res)
       | None => (mkNs ns (nstores c), RErr ENotFound)
       end
-  | MOp (OGet n v) => (c, snd (spec_step (sget (ncur c) (nstores c)) (OGet n v)))
-  | MOp (ODelete n v) =>
+  | OGet n v => (c, snd (spec_step (sget (ncur c) (nstores c)) (OGet n v)))
+  | ODelete n v =>
       match aget (ncur c) (nstores c) with
       | Some s =>
           let res := spec_step s (ODelete n v) in
           (mkNs (ncur c) (aset (ncur c) (fst res) (nstores c)), snd res)
       | None => (c, RErr ENotFound)
       end
-  | MOp OList => (c, RRels (ns_visible c))
-  | MOp (OQuery q) =>
+  | OList => (c, RRels (ns_visible c))
+  | OQuery q =>
       match filter (sys_match q) (ns_visible c) with
       | [] => (c, RErr ENotFound)
       | l => (c, RRels l)
       end
+  end.
+
+Definition nspec_step (c : nspec) (x : mop) : nspec * out :=
+  match x with
+  | MOp o => nspec_op c o
+  | MSetNs ns => (mkNs ns (nstores c), ROk)
+  | MRmw n v st => rmw nspec_op c n v st
   end.
 
 Fixpoint nspec_run (c : nspec) (xs : list mop) : list out :=
